@@ -89,6 +89,10 @@ class C18(PropCheck):
         for i in range(n):
             seed = rng.randrange(1 << 30)
             out.append({"k": "tree", "seed": seed, "depth": rng.randint(2, dmax), "width": rng.randint(2, dmax)})
+            if i % 10 == 0:
+                # plus a frame whose context has a child context with an inner stack of its own (as an ExitStack entering a
+                # generator-based manager gives), below the depth budget of the random part
+                out.append({"k": "tree", "seed": rng.randrange(1 << 30), "depth": 2, "width": 2, "graft": True})
         for i in range(150 if tier == "quick" else 1500):
             out.append({"k": "err", "seed": rng.randrange(1 << 30), "chain": i % 5 == 0})
         return out
@@ -143,7 +147,9 @@ class C18(PropCheck):
         return " ".join("-".join(str(ord(ch)) for ch in l) for l in real[1:])
 
     def build(self, case):
-        return trees.rnd_stack(random.Random(case["seed"]), case["depth"], case["width"])
+        rng = random.Random(case["seed"])
+        st = trees.rnd_stack(rng, case["depth"], case["width"])
+        return trees.graft_deep_child(rng, st) if case.get("graft") else st
 
     def run_real(self, case):
         if case["k"] == "err":
